@@ -387,7 +387,11 @@ def transform_and_check(ctx, tf, g, subject_hint):
         if isinstance(exc, ValueError) and "above domain" in str(exc):
             with np.errstate(all="ignore"):
                 img = np.asarray(tf.transform(g.points), dtype=float)
-            if getattr(tf, "trim_inf", False) and np.nanmax(img) > 1e16 and np.all(np.isfinite(img)):
+            base, depth = tf, 0  # Inverse(Inverse(T)) is labelled (and behaves) as T: read the trimming flag of T
+            while type(base).__name__ == "InverseRTransform" and hasattr(base, "_tfm"):
+                base, depth = base._tfm, depth + 1
+            trimmed = getattr(base if depth % 2 == 0 else tf, "trim_inf", False)
+            if trimmed and np.nanmax(img) > 1e16 and np.all(np.isfinite(img)):
                 sig += ",finite-node-image-above-trimmed-domain-end-1e16"
         ctx.fail("transform-succeeds", sub, sig, detail={"error": str(exc)[:200], "hint": subject_hint})
         return None, None
